@@ -84,6 +84,20 @@ def rule_strlit(ctx, rep):
             # text inside an existing f-string: joined from sibling FormattedStringText values of the same literal
             rep.instance("R-STRLIT", fn.qname, where, True, detail="f-string-text-of-same-literal", expr=txt[:80])
             continue
+        if ".join(" in txt:
+            # raw text of several literals joined into one token: whatever quote is chosen (fixed, or that of one of the
+            # literals) some other literal's text may contain it
+            must = ctx.flow(fn).must_at(c)
+            guarded = any(
+                isinstance(cmp_, ast.Compare) and isinstance(cmp_.ops[0], (ast.In, ast.NotIn)) and isinstance(cmp_.left, ast.Constant) and cmp_.left.value in QUOTES
+                for pol, e in fact_exprs(must) for cmp_ in ast.walk(e)
+            )
+            rep.check("R-STRLIT", fn.qname, where, guarded, "multi-literal-join",
+                      f"string token `{txt[:60]}` pastes the raw text of several literals into one literal without excluding/escaping its "
+                      "delimiter: a piece containing that quote yields a malformed token (e.g. logging.info('say \"hi\" ' + name) -> "
+                      "logging.info(\"say \"hi\" %s\", name); 'User ' + name + \" can't log in\" -> 'User %s can't log in')",
+                      expr=txt[:80])
+            continue
         for t in tmpls:
             if HOLE not in t:
                 continue
@@ -154,6 +168,56 @@ def rule_comma_tail(ctx, rep):
         raise AnalysisError("filtered import-alias rewrites not found (2 confirmed by hand)")
 
 
+def rule_bare_genexp(ctx, rep):
+    rep.rule(
+        "R-BARE-GENEXP",
+        "a GeneratorExp built without its own parentheses (lpar=[] or dynamic **kwargs) is placed in a freshly constructed cst.Arg as "
+        "the sole argument; re-using an existing Arg (with_changes(value=gen)) can carry a trailing comma: `sum(x for x in xs,)` is a "
+        "SyntaxError that libcst does not reject",
+        min_instances=1,
+    )
+    n = 0
+    for fn in ctx.prog.functions.values():
+        if not fn.module.name.startswith(("core_codemods.", "codemodder.codemods")):
+            continue
+        r = ctx.resolver(fn)
+        for c in walk_no_nested(fn.node):
+            if isinstance(c, ast.Call) and unparse(c.func) in ("cst.GeneratorExp", "GeneratorExp"):
+                kw = {k.arg: k.value for k in c.keywords}
+                bare = (None in kw) or ("lpar" in kw and isinstance(kw["lpar"], (ast.List, ast.Tuple)) and not kw["lpar"].elts)
+                if not bare:
+                    continue
+                n += 1
+                # where does the generator go?
+                par = ctx.parents(fn).get(id(c))
+                holder = None
+                if isinstance(par, ast.keyword):
+                    holder = ctx.parents(fn).get(id(par))
+                elif isinstance(par, (ast.Assign, ast.AnnAssign)):
+                    name = (par.targets[0] if isinstance(par, ast.Assign) else par.target)
+                    if isinstance(name, ast.Name):
+                        # uses in the same statement list (branch) come first
+                        owner = ctx.parents(fn).get(id(par))
+                        scope_nodes = [fn.node]
+                        for fld in ("body", "orelse", "finalbody"):
+                            lst = getattr(owner, fld, None)
+                            if isinstance(lst, list) and par in lst:
+                                later = lst[lst.index(par) + 1 :]
+                                if any(isinstance(u, ast.Name) and u.id == name.id for st in later for u in ast.walk(st)):
+                                    scope_nodes = later
+                        for u in [x for sn in scope_nodes for x in (walk_no_nested(sn) if sn is fn.node else ast.walk(sn))]:
+                            if isinstance(u, ast.keyword) and isinstance(u.value, ast.Name) and u.value.id == name.id and u.arg == "value":
+                                h = ctx.parents(fn).get(id(u))
+                                if holder is None or (isinstance(h, ast.Call) and last_attr(h.func) == "with_changes"):
+                                    holder = h
+                fresh = isinstance(holder, ast.Call) and unparse(holder.func) in ("cst.Arg", "Arg")
+                rep.check("R-BARE-GENEXP", fn.qname, fn.loc(c), fresh, "paren-less-generator",
+                          f"paren-less generator is put into `{unparse(holder)[:50] if holder is not None else '?'}` rather than a fresh cst.Arg: "
+                          "an inherited trailing comma makes the output unparseable")
+    if n == 0:
+        rep.instance("R-BARE-GENEXP", "codebase", "src/", True, detail="no paren-less GeneratorExp construction")
+
+
 def rule_template_parses(ctx, rep):
     rep.rule(
         "R-TEMPLATE-PARSES",
@@ -200,6 +264,7 @@ def check(ctx, rep):
     from .c02 import rule_nodetype
 
     rule_nodetype(ctx, rep)
+    rule_bare_genexp(ctx, rep)
     rule_template_parses(ctx, rep)
     rep.not_covered += [
         "validity of libcst code generation for arbitrary trees (the core of the property)",
